@@ -34,6 +34,8 @@ VALUE_SAFE = [
     "n", "n + 1", "s", "u", "b", "none", "items[0]", "items[1]", "d['k']", "obj", "obj.name", "obj.greet(n)",
     "s.upper()", "len(items)", "f", "t", "'lit\"q'", '"{" + s + "}"', "escape(s)", "json_encode(d)", "url_escape(s)",
     "squeeze('a   b')", "[x * 2 for x in range(3)]", "'%s-%s' % (n, s)", "n if t else z", "str(b, 'utf8')",
+    "escape(s) + u", "xhtml_escape(s) + str(b, 'utf8').strip()", "escape(s) if not z else str(n)", "linkify(s)",
+    "url_escape(u) + s", "'%s|%s' % (obj, s)", "xhtml_escape(items[1])", "escape(s) + items[1]",
     "(n +\n z)", "d", "items", "u * 2", "s[1:3]", "'%'", "'#' + s", "n % 2", "({'a': 1}['a'])",
 ]
 VALUE_LOCAL = ["v0", "v1", "v2", "v0 + 1", "i0", "k0", "x0", "ch", "math.floor(f)", "floor(f)", "type(ex).__name__"]
